@@ -1179,6 +1179,41 @@ def bin_term(op, a, b):
         return ('not', ('bin', 'Eq', a, b))
     return ('bin', op, a, b)
 
+class NotEvaluable(Exception):
+    pass
+
+def eval_term(t, env):
+    """Exact value of a term built from literals, the symbolic leaves given in env (term -> int/bool), integer / boolean
+    operators and casts.  Used to decide predicates over a small finite domain exhaustively (every byte value)."""
+    if t in env:
+        return env[t]
+    k = t[0]
+    if k == 'lit':
+        return t[1]
+    if k == 'cast':
+        v = eval_term(t[1], env)
+        rng = INT_RANGE.get(hirq.strip_refs(str(t[2] or '')))
+        if rng is not None and isinstance(v, int) and not isinstance(v, bool):
+            width = rng[1] - rng[0] + 1
+            v = (v - rng[0]) % width + rng[0]
+        return v
+    if k == 'not':
+        return not eval_term(t[1], env)
+    if k == 'bitnot':
+        return ~eval_term(t[1], env)
+    if k == 'neg':
+        return -eval_term(t[1], env)
+    if k == 'bin':
+        a, b = eval_term(t[2], env), eval_term(t[3], env)
+        f = {'Add': lambda: a + b, 'Sub': lambda: a - b, 'Mul': lambda: a * b, 'Eq': lambda: a == b, 'Ne': lambda: a != b,
+             'Lt': lambda: a < b, 'Le': lambda: a <= b, 'Gt': lambda: a > b, 'Ge': lambda: a >= b, 'BitAnd': lambda: a & b,
+             'BitOr': lambda: a | b, 'BitXor': lambda: a ^ b, 'Shl': lambda: a << b, 'Shr': lambda: a >> b,
+             'And': lambda: a and b, 'Or': lambda: a or b, 'Rem': lambda: a % b, 'Div': lambda: a // b}.get(t[1])
+        if f is None:
+            raise NotEvaluable(t[1])
+        return f()
+    raise NotEvaluable(k)
+
 def pat_key(p):
     from facts import pp_pat
     import re
